@@ -57,11 +57,14 @@ class SerialPool:
     def __exit__(self, *a):
         return False
 
-    def starmap(self, f, it):
+    def starmap(self, f, it, chunksize=None):
         return [f(*args) for args in it]
 
-    def map(self, f, it):
+    def map(self, f, it, chunksize=None):
         return [f(x) for x in it]
+
+    def terminate(self):
+        pass
 
     def imap(self, f, it, chunksize=1):
         return iter([f(x) for x in it])
